@@ -30,10 +30,12 @@
 // execution "as long as the pool has not been released").
 // All the time: high-water mark of concurrently running jobs <= workers.
 //
-// Timing discipline: every wait is bounded (boundBase + 50 x the sum of all drawn sleeps);
-// a missed bound is a *suspicion* only: the same case is re-run alone twice with the doubled
-// bound, it is reported only if both re-runs miss as well, otherwise st.Inconclusive().
-// Bounds are > 40x the slowest whole-case latency observed with the machine saturated.
+// Timing discipline: every wait is a no-progress watchdog: it gives up only when none of the
+// monotone counters (sends completed, job starts, job completions, pool goroutines gone) has
+// moved for `window` (5 s + 20 x the longest drawn sleep) - the length of a case therefore
+// does not matter, only the latency of one scheduling step. A missed wait is a *suspicion*
+// only: the same case is re-run alone twice with the doubled window, it is reported only if
+// both re-runs miss as well, otherwise st.Inconclusive().
 //
 // Sensitivity (scratch worktree, quick tier, each exits 1):
 //
@@ -71,7 +73,7 @@ var st = stat.New("C19",
 	"jobs still queued when Release is called are not required to run; they must run at most once and not start after Release returned",
 	"Release on a pool that still has running/queued jobs is expected to return once the running jobs finished (second sentence of the statement; tcphandler.Shutdown relies on it)",
 	"'stops all workers' is observed as: no goroutine whose stack contains tars/util/gpool frames beyond those present before NewPool (asserted for idle release only)",
-	"timing bounds are suspicions: confirmed by two solo re-runs with doubled bound, else counted inconclusive")
+	"waits give up only after 5 s (+20 x longest drawn sleep) without any progress of the send/start/completion counters; such a miss is a suspicion: confirmed by two solo re-runs with doubled window, else counted inconclusive")
 
 // ---------------------------------------------------------------------------- case
 
@@ -260,31 +262,33 @@ func (c Case) activeSubmitters() int {
 	return len(seen)
 }
 
-// sleepSum is the sum of all drawn sleeps of the case (microseconds).
-func (c Case) sleepSum() int {
-	s := c.PreUs + c.HoldUs + c.SettleUs
+// maxSleep is the longest single drawn sleep of the case (microseconds).
+func (c Case) maxSleep() int {
+	m := c.PreUs
+	for _, v := range []int{c.HoldUs, c.SettleUs} {
+		m = max(m, v)
+	}
 	for _, j := range c.Jobs {
-		if j.Dur > 0 {
-			s += j.Dur
-		}
-		s += j.SubP
+		m = max(m, j.Dur, j.SubP)
 	}
 	for _, p := range c.Phase2 {
-		if p.Dur > 0 {
-			s += p.Dur
-		}
+		m = max(m, p.Dur)
 	}
-	return s
+	return m
 }
 
-// boundBase: a whole case (all phases together) normally takes 0.1..20 ms; the slowest whole
-// case observed with 16 CPU burners + three concurrent ./check C19 (incl. -race) on 16 cores
-// took 120 ms. Every *individual* wait gets 5 s + 50 x (sum of all drawn sleeps), i.e. > 40x
-// that; the two confirmation re-runs get twice as much.
-const boundBase = 5 * time.Second
+// windowBase: the watchdog of every wait fires only when NO counter moved for the whole
+// window. One step of progress needs one goroutine wake-up (plus at most one drawn sleep of
+// <= 3 ms); the longest gap between two counter movements observed with 16 CPU burners +
+// three concurrent ./check C19 (incl. -race) on 16 cores is reported in the evidence
+// (extra.max_progress_gap_ms, sampled every 10 ms) and stayed two orders of magnitude below.
+const windowBase = 5 * time.Second
 
-func (c Case) bound(factor int) time.Duration {
-	return time.Duration(factor) * (boundBase + 50*time.Duration(c.sleepSum())*time.Microsecond)
+// hardCap bounds a whole wait even if counters keep moving (a pool that runs jobs for ever).
+const hardCap = 3 * time.Minute
+
+func (c Case) window(factor int) time.Duration {
+	return time.Duration(factor) * (windowBase + 20*time.Duration(c.maxSleep())*time.Microsecond)
 }
 
 // ---------------------------------------------------------------------------- execution
@@ -308,6 +312,7 @@ type runState struct {
 	lateStarts   atomic.Int32 // jobs that saw released==true at their start
 	blockedSends atomic.Int32 // sends that could not complete immediately (observed back-pressure)
 	submitted    atomic.Int32
+	completed    atomic.Int64 // total job completions
 }
 
 func (r *runState) openGate() { r.gateOnce.Do(func() { close(r.gate) }) }
@@ -346,6 +351,7 @@ func (r *runState) job(i int, dur, yields int, gated, phase1 bool) gpool.Job {
 		}
 		spend(dur, yields)
 		r.counts[i].Add(1)
+		r.completed.Add(1)
 		r.running.Add(-1)
 		if phase1 && r.fin1.Add(1) == r.n1 {
 			close(r.all1)
@@ -364,11 +370,6 @@ func (r *runState) send(pool *gpool.Pool, fn gpool.Job) {
 }
 
 func waitCh(ch <-chan struct{}, d time.Duration) bool {
-	select {
-	case <-ch:
-		return true
-	default:
-	}
 	t := time.NewTimer(d)
 	defer t.Stop()
 	select {
@@ -376,6 +377,54 @@ func waitCh(ch <-chan struct{}, d time.Duration) bool {
 		return true
 	case <-t.C:
 		return false
+	}
+}
+
+func (r *runState) progress() int64 {
+	return int64(r.submitted.Load()) + r.startSeq.Load() + r.completed.Load() + int64(r.gatedUp.Load())
+}
+
+var maxGap atomic.Int64 // longest observed interval without counter movement inside a successful wait (ns)
+
+// await waits for ch; it gives up (false) only when the progress counters have not moved
+// for `window`, or after hardCap.
+func (r *runState) await(ch <-chan struct{}, window time.Duration) bool {
+	select {
+	case <-ch:
+		return true
+	default:
+	}
+	start := time.Now()
+	last, lastChange := r.progress(), start
+	tick := time.NewTicker(10 * time.Millisecond)
+	defer tick.Stop()
+	gap := time.Duration(0)
+	defer func() {
+		for {
+			cur := maxGap.Load()
+			if int64(gap) <= cur || maxGap.CompareAndSwap(cur, int64(gap)) {
+				return
+			}
+		}
+	}()
+	for {
+		select {
+		case <-ch:
+			gap = max(gap, time.Since(lastChange))
+			return true
+		case now := <-tick.C:
+			if p := r.progress(); p != last {
+				gap = max(gap, now.Sub(lastChange))
+				last, lastChange = p, now
+			} else if now.Sub(lastChange) >= window {
+				gap = 0 // not a successful wait
+				return false
+			}
+			if now.Sub(start) >= hardCap {
+				gap = 0
+				return false
+			}
+		}
 	}
 }
 
@@ -417,7 +466,7 @@ type obs struct {
 
 // attempt executes the case once. fail = definite violation; stall = a bounded wait was
 // missed (suspicion, to be confirmed by the caller).
-func attempt(c Case, bound time.Duration) (fail, stall *stat.Failure, o obs) {
+func attempt(c Case, window time.Duration) (fail, stall *stat.Failure, o obs) {
 	t0 := time.Now()
 	defer func() { o.elapsed = time.Since(t0) }()
 	W, Q := c.Workers, c.QueueCap
@@ -489,8 +538,8 @@ func attempt(c Case, bound time.Duration) (fail, stall *stat.Failure, o obs) {
 		}()
 	}
 	go func() { subs.Wait(); close(subsDone) }()
-	if !waitCh(subsDone, bound) {
-		stall = stat.Failf("submit-stall", "%s: submitters still blocked in `pool.JobQueue <- job` after %v although every job terminates by itself (%s)", desc, bound, state())
+	if !r.await(subsDone, window) {
+		stall = stat.Failf("submit-stall", "%s: submitters still blocked in `pool.JobQueue <- job`, no send/start/completion for %v, although every job terminates by itself (%s)", desc, window, state())
 		abandon()
 		return
 	}
@@ -507,8 +556,8 @@ func attempt(c Case, bound time.Duration) (fail, stall *stat.Failure, o obs) {
 	p2done := make(chan struct{})
 	switch c.Release {
 	case "idle":
-		if !waitCh(r.all1, bound) {
-			stall = stat.Failf("jobs-not-executed", "%s: pool not released, all %d jobs submitted, but only %d completions after %v (%s)", desc, n1, r.fin1.Load(), bound, state())
+		if !r.await(r.all1, window) {
+			stall = stat.Failf("jobs-not-executed", "%s: pool not released, all %d jobs submitted, but only %d completions and no further progress for %v (%s)", desc, n1, r.fin1.Load(), window, state())
 			abandon()
 			return
 		}
@@ -524,14 +573,14 @@ func attempt(c Case, bound time.Duration) (fail, stall *stat.Failure, o obs) {
 				r.send(pool, r.job(n1+x, p.Dur, p.Yields, p.Gated, false))
 			}
 		}()
-		if !waitCh(p2done, bound) {
-			stall = stat.Failf("submit-stall", "%s: phase 2 (%d gated + extras that fit the queue) still blocked in `pool.JobQueue <- job` after %v (%s)", desc, k, bound, state())
+		if !r.await(p2done, window) {
+			stall = stat.Failf("submit-stall", "%s: phase 2 (%d gated + extras that fit the queue) still blocked in `pool.JobQueue <- job`, no progress for %v (%s)", desc, k, window, state())
 			r.openGate()
 			go func() { <-p2done; pool.Release() }()
 			return
 		}
-		if !waitCh(r.allGatedUp, bound) {
-			stall = stat.Failf("jobs-not-executed", "%s: pool not released, %d gated jobs (<= workers) submitted, only %d started after %v (%s)", desc, k, r.gatedUp.Load(), bound, state())
+		if !r.await(r.allGatedUp, window) {
+			stall = stat.Failf("jobs-not-executed", "%s: pool not released, %d gated jobs (<= workers) submitted, only %d started, no progress for %v (%s)", desc, k, r.gatedUp.Load(), window, state())
 			abandon()
 			return
 		}
@@ -565,12 +614,12 @@ func attempt(c Case, bound time.Duration) (fail, stall *stat.Failure, o obs) {
 		}
 		r.openGate()
 	}
-	if !waitCh(relDone, bound) {
+	if !r.await(relDone, window) {
 		sig, what := "release-hang-busy", "all running jobs terminate by themselves"
 		if idle {
 			sig, what = "release-hang", "the pool is idle (every submitted job finished before the call)"
 		}
-		stall = stat.Failf(sig, "%s: Release did not return within %v although %s (%s)", desc, bound, what, state())
+		stall = stat.Failf(sig, "%s: Release did not return, no progress for %v, although %s (%s)", desc, window, what, state())
 		return
 	}
 	if relPanic != nil {
@@ -616,15 +665,19 @@ func attempt(c Case, bound time.Duration) (fail, stall *stat.Failure, o obs) {
 
 	// ---- idle release: all workers stopped
 	if idle {
-		deadline := time.Now().Add(bound)
+		deadline := time.Now().Add(window)
 		pause := 50 * time.Microsecond
+		prev := -1
 		for {
 			cnt, dump := poolGoroutines()
 			if cnt <= base {
 				break
 			}
+			if prev < 0 || cnt < prev { // a goroutine exited: progress
+				prev, deadline = cnt, time.Now().Add(window)
+			}
 			if time.Now().After(deadline) {
-				stall = stat.Failf("pool-goroutines-alive", "%s: Release of the idle pool returned, but %d pool goroutines (beyond the %d present before NewPool) are still alive %v later:\n%s", desc, cnt-base, base, bound, dump)
+				stall = stat.Failf("pool-goroutines-alive", "%s: Release of the idle pool returned, but %d pool goroutines (beyond the %d present before NewPool) are still alive and none exited for %v:\n%s", desc, cnt-base, base, window, dump)
 				return
 			}
 			time.Sleep(pause)
@@ -654,7 +707,7 @@ var slowest atomic.Int64 // slowest passing attempt (ns), reported as evidence
 // verdictFixed: a violation was already returned to rapid in this process (see run).
 var verdictFixed atomic.Bool
 
-const shrinkBound = 1500 * time.Millisecond
+const shrinkWindow = 1500 * time.Millisecond
 
 func run(c Case) *stat.Failure {
 	c.sanitize()
@@ -703,28 +756,28 @@ func run(c Case) *stat.Failure {
 
 	if verdictFixed.Load() {
 		// A violation has already been recorded in this process: everything that follows is
-		// rapid's shrinking. It cannot change the verdict, so it runs with a short bound and a
+		// rapid's shrinking. It cannot change the verdict, so it runs with a short window and a
 		// single confirmation to keep hang-type counterexamples cheap to minimise.
-		f, s1, _ := attempt(c, shrinkBound)
+		f, s1, _ := attempt(c, shrinkWindow)
 		if f == nil && s1 != nil {
-			f2, s2, _ := attempt(c, shrinkBound)
+			f2, s2, _ := attempt(c, shrinkWindow)
 			if f = f2; f == nil && s2 != nil && s2.Sig == s1.Sig {
-				s1.Msg += " [re-observed during shrinking with the reduced bound]"
+				s1.Msg += " [re-observed during shrinking with the reduced window]"
 				f = s1
 			}
 		}
 		return f
 	}
-	fail, stall, o := attempt(c, c.bound(1))
+	fail, stall, o := attempt(c, c.window(1))
 	if fail != nil {
 		verdictFixed.Store(true)
 		return fail
 	}
 	if stall != nil {
-		// timing suspicion: re-run the same case alone twice with the doubled bound
+		// timing suspicion: re-run the same case alone twice with the doubled window
 		confirmed := 0
 		for i := 0; i < 2; i++ {
-			f2, s2, _ := attempt(c, c.bound(2))
+			f2, s2, _ := attempt(c, c.window(2))
 			if f2 != nil {
 				verdictFixed.Store(true)
 				return f2
@@ -734,7 +787,7 @@ func run(c Case) *stat.Failure {
 			}
 		}
 		if confirmed == 2 {
-			stall.Msg += " [confirmed by two solo re-runs with doubled bound]"
+			stall.Msg += " [confirmed by two solo re-runs with doubled window]"
 			verdictFixed.Store(true)
 			return stall
 		}
@@ -802,5 +855,10 @@ func TestC19(t *testing.T) {
 		key = "slowest_passing_case_ms(race)"
 	}
 	st.Extra(key, float64(slowest.Load())/1e6)
-	st.Extra("wait_bound", "each wait: 5s + 50 x sum of drawn sleeps; doubled for the two confirmation re-runs")
+	gkey := "max_progress_gap_ms(norace)"
+	if raceEnabled {
+		gkey = "max_progress_gap_ms(race)"
+	}
+	st.Extra(gkey, float64(maxGap.Load())/1e6)
+	st.Extra("wait_window", "a wait gives up after 5s + 20 x longest drawn sleep without any counter movement; doubled for the two confirmation re-runs")
 }
